@@ -59,3 +59,23 @@ MANIFEST_TEXT = {
         technique="Lean 4 proof (refinement to a reference ordered map, case analysis on value kinds) + differential correspondence",
     ),
 }
+
+PROPS["C20"] = dict(
+    suites=[("normalize", {Q: 400, T: 40000})],
+    rule="normalize suite: exhaustive sequences of announcements/uses over 3 call-site ids up to length 4 (quick) / 6 "
+         "(thorough); random sender-like streams (1..6 call sites, random 64-bit ids, duplicate announcements at "
+         "arbitrary positions, uses before announcement) up to 30/120 events; each case is also run under two injective "
+         "relabellings with changed lines and event names; non-trivial = >= 1 duplicate announcement and >= 2 distinct "
+         "call sites; distinct by input text",
+    assumptions=["path::MAIN_SEPARATOR == '/' (the file-path branch of normalize is the identity on this platform)"],
+)
+MANIFEST_TEXT["C20"] = dict(
+    text="Theorems (all event sequences, any ids): normalize = map (scrub ∘ rename rank) where rank numbers call sites by first "
+         "occurrence; rank is injective on the mentioned ids (collision-free, duplicate announcements included); the result is "
+         "invariant under every relabelling injective on the occurring ids, any line changes and any event call-site names; "
+         "idempotent; span ids, parents, values, other call-site data and order untouched. The pre-repair behaviour is kept as "
+         "normalizeOld with a kernel-checked counterexample. Tied to the real TracingEvent::normalize by exhaustive short and "
+         "random long streams on every run.",
+    note=_BASE_NOTE + "The Windows-only path-separator branch is not modelled.",
+    technique="Lean 4 proof (simulation over the id map, invariant by induction) + differential correspondence",
+)
